@@ -256,6 +256,7 @@ func genFE(rt *rapid.T, h *hh.H, mode string, fes []string, cfg model.GenCfg) fe
 	}
 	g := model.NewGen(rt, cfg)
 	root := g.GenNode(cfg.MaxDepth, true)
+	model.NormalisePosts(root)
 	if fe != model.FEMap && root.Kind == model.KStruct && rapid.IntRange(0, 4).Draw(rt, "ptrroot") == 0 {
 		// "a struct that may not exist": Ptr(Struct) at the root, also fed by the front-end factories
 		root = &model.Node{Kind: model.KPtr, Elem: root, Req: rapid.Bool().Draw(rt, "notnil")}
@@ -338,8 +339,8 @@ func TestC10(t *testing.T) {
 	// issues that come from a PostTransform's returned error are keyed by their own node's path too, whatever options
 	// (IssuePath ...) the tests of other nodes carry: mostly valid records, so that the failing transform is reached
 	pe := base
-	pe.PPost, pe.PostBehaviours = 0.2, []string{"mutate", "error", "wrapped", "issue", "error"}
-	pe.PTestSat, pe.PAbsent, pe.PJunk, pe.PVary, pe.POpts, pe.PCatch = 0.97, 0.05, 0, 0.15, 0.5, 0.05
+	pe.PPost, pe.PostBehaviours = 0.2, []string{"mutate", "error", "wrapped", "issue", "error", "issue-nopath", "ctxissue"}
+	pe.PTestSat, pe.PAbsent, pe.PJunk, pe.PVary, pe.POpts, pe.PCatch = 0.97, 0.05, 0, 0.15, 0.5, 0.25
 	for _, mode := range []string{"parse", "validate"} {
 		mode := mode
 		hh.SubEx(h, "post-errors-"+mode, h.N(8000, 40000), func(rt *rapid.T) feCase {
